@@ -10,6 +10,7 @@ REALS = ("ValueType is modelled by exact reals (type R): every 'equals its defin
          "the size and growth of IEEE rounding error is NOT decided by this check")
 
 UNITS = {
+    "indicator_set": dict(generator="gen_set_unit.py", doc="IndicatorConfig::set of all 36 shipped indicators; contracts generated from the public field lists"),
     "combinators": dict(tpl="combinators.rs.tpl", doc="Sequence::call, Method::over/new_over, WithHistory, WithLastValue, generic in M: Method"),
     "highest_lowest_index": dict(tpl="highest_lowest_index.rs.tpl", doc="methods::{HighestIndex, LowestIndex}"),
     "highest_lowest": dict(tpl="highest_lowest.rs.tpl", doc="methods::{Highest, Lowest, HighestLowestDelta}"),
@@ -174,6 +175,15 @@ PROPS["C09"] = dict(
                  "state; they are ASSUMED and backed only by the source scan reported under coverage.src_scan",
                  "Sequence::apply / Method::apply / new_apply (iter_mut), into_fn/new_fn/init_fn (boxed closures) and IndicatorInstance::over are not under contract",
                  "the iterator chain in Sequence::call is desugared by rule R8 over the slice-iterator model SliceIt"],
+)
+
+PROPS["C11"] = dict(
+    verus=["indicator_set"],
+    claim=("IndicatorConfig::set of every shipped indicator (36; the `example` sample excluded) is extracted (its `match name` turned into a str_eq chain "
+           "by rule R9) and verified against a contract GENERATED from the struct's public field list: for each public field the named parameter, and "
+           "only it, takes the parsed value and Ok is returned; on a parse error or any other name Err is returned and the configuration is unchanged."),
+    assumptions=["strings are compared by their Seq<char> view (str_eq) and str::parse is an uninterpreted function of the text (abstract parsing)",
+                 "result shape, name(), default validity and dyn forwarding (core/indicator/dd.rs) are not covered by this check yet"],
 )
 
 NOT_BUILT = {}
